@@ -96,6 +96,16 @@ func genOp(r *gen.Rand, c cfgIn, keys []string, idx int, w *gen.Writer) opIn {
 	if r.Chance(1, 10) {
 		o.hdelay = 1 + r.Intn(2)
 	}
+	if r.Chance(1, 12) {
+		// the origin handler fails: fiber's ErrorHandler answers, the cache must not store anything
+		o.err = true
+		o.status = gen.Pick(r, []int{400, 404, 404, 410, 418, 500, 501, 503})
+		o.ctype, o.cenc, o.hdrs = "", "", nil
+		if o.body == "" {
+			o.body = genBody(r, idx, 1+r.Intn(6))
+		}
+		w.Count("handler-error")
+	}
 	return o
 }
 
@@ -119,6 +129,7 @@ func genCase(r *gen.Rand, w *gen.Writer, tier string) (cfgIn, []opIn, map[int][]
 	c.ccOut = r.Chance(3, 10)
 	conc := r.Chance(3, 10)
 	c.kg = conc || r.Bool()
+	c.sy = conc && r.Chance(2, 3)
 	c.eg = r.Chance(3, 10)
 	c.iv = r.Chance(1, 2)
 	c.nx = r.Chance(1, 4)
@@ -165,7 +176,7 @@ func genCase(r *gen.Rand, w *gen.Writer, tier string) (cfgIn, []opIn, map[int][]
 				ops = append(ops, o)
 			}
 			var s []int
-			for i := r.Intn(3*m + 1); i > 0; i-- {
+			for i := r.Intn(4*m + 1); i > 0; i-- {
 				s = append(s, r.Intn(m))
 			}
 			scheds[grp] = s
@@ -186,6 +197,9 @@ func genCase(r *gen.Rand, w *gen.Writer, tier string) (cfgIn, []opIn, map[int][]
 	}
 	if c.maxBytes > 0 {
 		w.Count("maxbytes-set")
+	}
+	if c.sy {
+		w.Count("storage-yield")
 	}
 	return c, ops, scheds
 }
